@@ -385,7 +385,7 @@ class MDCPDPEnv(RL4COEnvBase):
             cost = torch.max(current_length, dim=-1)[0]
         elif self.reward_mode == "minsum":
             cost = torch.sum(current_length, dim=-1)
-        elif self.reward_mode == "lateness":
+        elif self.reward_mode in ("lateness", "lateness_square"):
             cost = torch.sum(current_length, dim=(-1))
             lateness = td["arrivetime_record"][..., num_depot + num_loc // 2 :]
             if self.reward_mode == "lateness_square":
